@@ -13,6 +13,9 @@ FULL statement proved (for every behaviour `U` of strconv.Unquote/UnquoteChar):
   guarantees whenever it reports no error; checked on every harness case), `tplNew` is a parse
   error, a compiler, ErrNoDocFound or an error list — never a panic, never out of fuel;
 * `C27_compile_total`: `newEx` never panics on any tree the parser returns without error;
+* `C27_fromfile_total`, `C27_newex_total`, `C27_relocate_total`: the same for `tpl.FromFile` with any source
+  (readable or not) and for `tpl.NewEx` = `FromFile` + `Relocate`, over every kind of error `FromFile`
+  returns; `Relocate`'s case list / panicking default are regenerated from tpl/tpl.go;
 * `C27_token_len_total`, `C27_token_string_total`, `C27_check_token_total`: the token-table accessors
   are total for every token value / literal (these are the theorems the pre-fix guard
   `tok <= len(tokens)` falsifies: `tokens[158]` with 158 entries).
@@ -41,7 +44,7 @@ theorem C27_compile_total (U : Unq) (ts : List Tok) (r : ParseResult)
   newEx_safe U r.rules (parseFile_noerr_wf CharOk hp hchar herr)
 
 /-- `tpl.New`: never a panic (and the model never runs out of fuel). -/
-theorem C27_new_total (U : Unq) (ts : List Tok) (scanErrs : Nat) (hchar : ∀ t ∈ ts, CharOk t) :
+theorem C27_new_total (U : Unq) (ts : List Tok) (scanErrs : List Nat) (hchar : ∀ t ∈ ts, CharOk t) :
     (tplNew U ts scanErrs).isBad = false := by
   unfold tplNew
   obtain ⟨r, hr⟩ := parseFile_isSome ts
@@ -57,7 +60,7 @@ theorem C27_new_total (U : Unq) (ts : List Tok) (scanErrs : Nat) (hchar : ∀ t 
     exact C27_compile_total U ts r hchar hr herr
 
 /-- The outcome classes spelled out. -/
-theorem C27_new_outcomes (U : Unq) (ts : List Tok) (scanErrs : Nat) (hchar : ∀ t ∈ ts, CharOk t) :
+theorem C27_new_outcomes (U : Unq) (ts : List Tok) (scanErrs : List Nat) (hchar : ∀ t ∈ ts, CharOk t) :
     tplNew U ts scanErrs = .parseErr ∨ tplNew U ts scanErrs = .noDoc ∨
     (∃ cs, tplNew U ts scanErrs = .ok cs) ∨ (∃ es cs, tplNew U ts scanErrs = .errs es cs) := by
   have h := C27_new_total U ts scanErrs hchar
@@ -68,6 +71,59 @@ theorem C27_new_outcomes (U : Unq) (ts : List Tok) (scanErrs : Nat) (hchar : ∀
   | errs es cs => exact Or.inr (Or.inr (Or.inr ⟨es, cs, rfl⟩))
   | panic => rw [hq] at h; cases h
   | oof => rw [hq] at h; cases h
+
+/-- `tpl.FromFile` (the common part of `tpl.New` and `tpl.NewEx`): never a panic, whatever the source
+(readable or not) -/
+theorem C27_fromfile_total (U : Unq) (srcOk : Bool) (ts : List Tok) (scanErrs : List Nat)
+    (hchar : ∀ t ∈ ts, CharOk t) : (fromFile U srcOk ts scanErrs).isBad = false := by
+  unfold fromFile
+  cases srcOk with
+  | false => rfl
+  | true =>
+    simp only [Bool.not_true, Bool.false_eq_true, if_false]
+    obtain ⟨r, hr⟩ := parseFile_isSome ts
+    rw [hr]
+    simp only
+    split
+    · rfl
+    · split
+      · rfl
+      · rename_i h1 h2
+        have herr : r.errs = [] := by
+          cases he : r.errs with
+          | nil => rfl
+          | cons a b => rw [he] at h2; simp at h2
+        have hs := C27_compile_total U ts r hchar hr herr
+        cases hq : newEx U r.rules with
+        | ok cs => rfl
+        | noDoc => rfl
+        | errs es cs => rfl
+        | parseErr => exact absurd hq (newEx_ne_parseErr U r.rules)
+        | panic => rw [hq] at hs; cases hs
+        | oof => rw [hq] at hs; cases hs
+
+/-- `tpl.NewEx(src, filename, line, col)` = `FromFile` + `Relocate`: never a panic, for every kind of
+error `FromFile` can return (*scanner.Error, scanner.ErrorList, *matcher.Error, errors.List, and the
+position-less ones: cl.ErrNoDocFound, iox.ErrInvalidSource, I/O errors).  This is the theorem the
+`default: panic("todo: …")` clause that tpl.Relocate had before commit "fix: tpl.Relocate …"
+falsifies (`relocateDefaultPanics` is regenerated from tpl/tpl.go). -/
+theorem C27_newex_total (U : Unq) (srcOk : Bool) (ts : List Tok) (scanErrs : List Nat)
+    (hchar : ∀ t ∈ ts, CharOk t) : (tplNewEx U srcOk ts scanErrs).isBad = false := by
+  unfold tplNewEx
+  have h := C27_fromfile_total U srcOk ts scanErrs hchar
+  cases hq : fromFile U srcOk ts scanErrs with
+  | ok => rfl
+  | err e =>
+    obtain ⟨e', he⟩ := relocate_total (by rfl) e
+    simp only [he]
+    rfl
+  | panic => rw [hq] at h; cases h
+  | oof => rw [hq] at h; cases h
+
+/-- `Relocate` alone: total on every error value. -/
+theorem C27_relocate_total (e : GoErr) : relocate e ≠ none := by
+  obtain ⟨e', he⟩ := relocate_total (by rfl) e
+  rw [he]; simp
 
 /-! Non-vacuity: the literal that used to panic, and malformed grammars, on concrete inputs. -/
 
@@ -83,8 +139,8 @@ def tSemi : Tok := ⟨T.SEMICOLON, [10]⟩
 
 /-- `doc = "\x9e"`: token 0x9e = len(tokens) is outside the table ⇒ "invalid token", no document rule -/
 example : tokLen 0x9e = some 0 := by decide +kernel
-example : (tplNew U0 [tDoc, opTok T.ASSIGN, tStr9e, tSemi] 0).isBad = false := by decide +kernel
-example : (tplNew U0 [tDoc, opTok T.ASSIGN, tChr9e, tSemi] 0).isBad = false := by decide +kernel
+example : (tplNew U0 [tDoc, opTok T.ASSIGN, tStr9e, tSemi] []).isBad = false := by decide +kernel
+example : (tplNew U0 [tDoc, opTok T.ASSIGN, tChr9e, tSemi] []).isBad = false := by decide +kernel
 example : ∀ t ∈ [tDoc, opTok T.ASSIGN, tChr9e, tSemi], CharOk t := by
   intro t ht
   simp only [List.mem_cons, List.not_mem_nil, or_false] at ht
@@ -92,6 +148,9 @@ example : ∀ t ∈ [tDoc, opTok T.ASSIGN, tChr9e, tSemi], CharOk t := by
 /-- the model does have the panic outcome: a one-byte CHAR token (only produced together with a
 scanner error, so `tpl.New` never compiles it) makes `compileLit` slice out of bounds -/
 example : compileLit U0 T.CHAR [39] ⟨[], []⟩ = none := by decide +kernel
+/-- the empty grammar: `FromFile` returns cl.ErrNoDocFound, which `NewEx` must hand through -/
+example : (fromFile U0 true [] []).isBad = false ∧ (tplNewEx U0 true [] []).isBad = false := by
+  constructor <;> decide +kernel
 /-- and a nil operand (tree of `doc = * ;`, a parse error) panics in `compileExpr` -/
 example : (compileExpr [] U0 (.unary T.MUL .nil) ⟨[], []⟩).isNone = true := by
   simp [compileExpr]
